@@ -10,10 +10,11 @@ import (
 	"github.com/rs/zerolog/log"
 )
 
-var k = koanf.New(".")
-
 // updatePackageInfoFromArgs overrides the fields in packageInfo using command-line arguments
 func updatePackageInfoFromArgs(packageInfo *packaging.PackageInfo, configArgs map[string]string) error {
+	// a fresh instance for every call: under --watch the manifest is reloaded many times and
+	// keys of sections that have since been removed from it must not survive
+	k := koanf.New(".")
 	if err := k.Load(structs.Provider(packageInfo, "yaml"), nil); err != nil {
 		log.Panic().Msgf("error loading package info: %v", err)
 	}
